@@ -21,7 +21,7 @@ def verify(d):
     os.rmdir(wt)
     res = {"dir": d, "run": "go test -vet=off -count=1 -run %s %s" % (runre, pkg)}
     try:
-        rc, out = run("git -C /repo worktree add -q --detach %s HEAD" % wt, "/")
+        rc, out = run("git -C /repo worktree add -q --detach %s %s" % (wt, os.environ.get("SEED_BASE", "HEAD")), "/")
         if rc: return {"ok": False, "why": "worktree: " + out}
         demos = glob.glob(os.path.join(d, "*_test.go"))
         for f in demos: shutil.copy(f, os.path.join(wt, pkgdir, os.path.basename(f)))
